@@ -16,7 +16,7 @@ checks = {
  "C06": ("exploration", W1 + "ordered (sleep, send) port-call trace per Emit against the descriptor list; over-declared counts bounded", "5.C06", "Emit from the model's certain active mapper; pauses checked as lower bounds on virtual send time."),
  "C07": ("exploration", W1 + "observation-multiset reference model across Query rounds (more flag followed), floods around the per-frame capacity", "5.C07", "Conservation demanded for k <= 300 pending observations; above that only none-invented / none-twice."),
  "C08": ("exploration", W1 + "mapper fetch loops with byte-exact reassembly, per-response relation, icon cache across Reset and platform changes", "5.C08", "Per-call relation sampled with boundary bias (not the exhaustive (size, offset) enumeration)."),
- "C09": ("exploration", W1 + "differential against a freshly started twin context after every topology Reset, byte-for-byte trace comparison", "5.C09", "Twin shares configuration and clock; internal faults only before the Reset."),
+ "C09": ("exploration", W1 + "differential against a freshly started twin context after every topology Reset, byte-for-byte trace comparison", "5.C09", "Twin shares configuration and clock; internal faults only before the Reset. Darwin flow runs a full-flow twin whose periodic Hellos are compared too; the generation field the Darwin flow keeps across a Reset is a recorded known finding (KNOWN_FINDINGS.txt), any other difference fails the check."),
  "C10": ("exploration", W1 + "two real responder instances on one segment: frames emitted by A are delivered to B and must appear in B's QueryResp", "5.C10", "A->B link lossless by construction; other traffic interleaved."),
  "C11": ("exploration", W1 + "real derive_session_event (no LLTD_TESTING) in the Darwin flow; expected event recomputed from raw bytes and the session table", "5.C11", "Station lists 0..240 with own address first/middle/last/absent; table contents from the run's history."),
  "C12": ("exploration", W1 + "discrete-event time over the Darwin flow (100 ms ticks, stalls, partitions, 120 s jumps) and API-level interleavings; 4-clause invariant on every periodic Hello", "5.C12", "Darwin loop body is a transcription (os/darwin does not compile here); tick and RepeatBand code are real."),
@@ -27,8 +27,8 @@ checks = {
  "C17": ("exploration", W1 + "sequential half: seeded interleavings of two interfaces' histories vs each history alone (trace equality)", "5.C17",
          "Sequential half in W1. Threaded half in W2: the real embedded daemon with 2-3 simulated NICs, one lltdLoop thread each, scheduler pre-empting at libc calls and at every instrumented memory access of the core (clang -fsanitize=thread instrumentation, own callbacks), vector-clock happens-before detector with create/join edges only, per-NIC trace vs solo trace. The unsynchronised per-interface state list is a recorded known finding (KNOWN_FINDINGS.txt); any other race or unexplained cross-talk fails the check."),
  "C18": ("fault_enumeration", W1 + "systematic enumeration: every k-th allocation / send index / getter subset of every request of a fixed scenario corpus, post-Reset twin equality, constructors under allocation failure", "5.C18",
-         "W1 enumerates fault points of 6 scenarios + 24 constructor fault points; W2 half injects libc-level faults into the real daemon and Linux port (k-th malloc of the run, sendto refusal / short write, SIOCGIFMTU failure, getifaddrs failure, socket failure for one NIC, recvfrom EINTR / 0) by seeded search."),
- "C19": ("exploration", W1 + "allocation ledger checked after every frame over long floods (quick 2*10^4, thorough 10^5 frames)", "5.C19", "Bound operationalised as 64 KiB + cached icon per interface."),
+         "W1 enumerates fault points of 7 scenarios (quick; 15 thorough; two-interface scenarios included) + 24 constructor fault points; W2 half compares the allocations left after one and after three passes of the faulted history and injects libc-level faults into the real daemon and Linux port (k-th malloc of the run, sendto refusal / short write, SIOCGIFMTU failure, getifaddrs failure, socket failure for one NIC, recvfrom EINTR / 0) by seeded search."),
+ "C19": ("exploration", W1 + "allocation ledger checked after every frame over long floods (quick 2*10^4, thorough 10^5 frames)", "5.C19", "Bound operationalised as 64 KiB + cached icon per interface. W2 half (real Linux daemon and port): the allocations alive after the closing Resets must be the same after one and after three passes of the same history; every getifaddrs list must be released."),
 }
 m = {
  "version": 1,
@@ -51,7 +51,7 @@ for pid in sorted(checks):
         "engine": "lltdsim",
         "level_claimed": {"category": lvl, "text": ("fault enumeration: " if lvl == "fault_enumeration" else "seeded exploration: ") + tech, "design_ref": ref},
         "level_note": note,
-        "technique": "deterministic simulation with fault injection: " + tech.replace(W1, "W1 simulated LAN around the real core; ") + (" + W2: real Linux embedded daemon and port over a simulated libc with an owned thread scheduler" if pid in ("C01", "C04", "C17", "C18") else "") + (" + valgrind memcheck cross-check of the un-sanitized build (fresh memory undefined, transmitted bytes checked for definedness)" if pid in ("C01", "C02") else ""),
+        "technique": "deterministic simulation with fault injection: " + tech.replace(W1, "W1 simulated LAN around the real core; ") + (" + W2: real Linux embedded daemon and port over a simulated libc with an owned thread scheduler" if pid in ("C01", "C04", "C17", "C18", "C19") else "") + (" + valgrind memcheck cross-check of the un-sanitized build (fresh memory undefined, transmitted bytes checked for definedness)" if pid in ("C01", "C02") else ""),
     })
 json.dump(m, open(os.path.join(V, "MANIFEST.json"), "w"), indent=1)
 print("wrote MANIFEST.json with", len(m["checks"]), "checks")
